@@ -17,6 +17,7 @@ type mline struct {
 	// structural (the marker's optional/required space plus indentation); a tab may replace as many of them as reach the
 	// next tab stop. tabN == 0: no spot.
 	tabAt, tabN int
+	blank       bool // a whitespace-only separator line
 }
 
 type kind int
